@@ -92,12 +92,14 @@ pub fn install() {
             .location()
             .map(|l| format!("{}:{}", l.file(), l.line()))
             .unwrap_or_default();
+        crate::alloc::pause(true);
         let bt = std::backtrace::Backtrace::force_capture().to_string();
         if std::env::var_os("AVMON_DEBUG_BT").is_some() {
             eprintln!("{bt}");
         }
         let site = first_repo_frame(&bt);
         LAST.with(|l| *l.borrow_mut() = Some(PanicInfo { msg, loc, site }));
+        crate::alloc::pause(false);
     }));
 }
 
